@@ -579,8 +579,11 @@ def pred_C06(model, params, run):
                     return out
         if "finished" in it:
             st = it["finished"]
+            # off the dyadic grid "no work left" is judged like the code documents it (error_tol = 1e-10);
+            # the predicate asks for less (1e-12) so that it can never demand more than the code promises
+            tol = Fr(1, 10 ** 12) if model.get("decimal") else Fr(0)
             for t in range(model["nT"]):
-                if st["tstate"][t] == WORKING and F(st["rem"][t]) <= 0 and finish_gate(model, st["tstate"], t):
+                if st["tstate"][t] == WORKING and F(st["rem"][t]) <= tol and finish_gate(model, st["tstate"], t):
                     out.append(viol("C06", "task %d not FINISHED although its work is done and finish dependencies hold" % t, time=st["time"]))
                     return out
         if "working" in it:
@@ -654,7 +657,16 @@ def pred_C07(model, params, run):
     out = []
     fin = run["final"]
     n = len(fin["projCost"])
-    absn = set(params["absence"])
+    # every level keeps one cost entry per recorded step: lists of different lengths cannot add up step by step
+    for name, rows in (("worker", fin["wCost"]), ("worker state", fin["wState"]), ("facility", fin["fCost"]), ("facility state", fin["fState"]),
+                       ("team", fin["teamCost"]), ("workplace", fin["wpCost"]), ("organization", [fin["orgCost"]])):
+        for i, row in enumerate(rows):
+            if len(row) != n:
+                out.append(viol("C07", "%s %d has %d cost/state entries, the project cost list has %d" % (name, i, len(row), n)))
+                return out
+    # with log initialisation off (or a resumed clock) the list index is not the step number of this run
+    mixed = not (params.get("initState", True) and params.get("initLog", True))
+    absn = set() if mixed else set(params["absence"])
     for k in range(n):
         tot = Fr(0)
         for a, tm in enumerate(model["teams"]):
